@@ -43,6 +43,9 @@ type CrashCase struct {
 	// clients overlapped in call/return time is kept: crash points are spent on an interleaving
 	// that has something to order
 	Screen int `json:"screen,omitempty"`
+	// Oversize: the workload commits more metadata than the metadata store accepts in one
+	// transaction; such a commit may fail (class other) and must then fail as a whole
+	Oversize bool `json:"oversize,omitempty"`
 }
 
 type propC04 struct{}
@@ -79,6 +82,9 @@ func (propC04) Gen(r *simrt.Rand, idx int, tier string) any {
 	}
 	if idx%16 == 6 {
 		return genCrashBigCommit(r)
+	}
+	if idx%16 == 14 {
+		return genCrashOversizeCommit(r)
 	}
 	p := seqProfile{prop: "C04", steps: [2]int{3, 12}, keys: [2]int{2, 3}, maxTx: 2, txWeight: 60, ctlWeight: 15, readback: "none", big: idx%3 == 0, overlap: r.Intn(2) == 0}
 	c := genSeqCase(r, p)
@@ -292,6 +298,7 @@ type verifyOut struct {
 	First, Second crashState
 	Acked         []int      `json:"acked"`
 	InFlight      int        `json:"inflight"` // op index or -1
+	Classes       map[int]string `json:"classes,omitempty"` // acknowledged op -> error class it returned
 	Viol          *Violation `json:"viol,omitempty"`
 	Mutations     uint64     `json:"mutations"`
 }
@@ -378,8 +385,8 @@ func CrashVerify(caseFile, dir, logPath string) int {
 	if json.Unmarshal(b, &c) != nil {
 		return 2
 	}
-	acked, _, inflight, _, _ := parseCrashLog(logPath)
-	out := verifyOut{Acked: acked, InFlight: inflight}
+	acked, classes, inflight, _, _ := parseCrashLog(logPath)
+	out := verifyOut{Acked: acked, InFlight: inflight, Classes: classes}
 	written := map[uint64]Op{}
 	for _, o := range c.Seq.Ops {
 		if o.ID != 0 {
@@ -475,6 +482,13 @@ func judgeCrash(c CrashCase, v *verifyOut) *Violation {
 		}
 	}
 	for _, i := range v.Acked {
+		if o := c.Seq.Ops[i]; o.K == "commit" && v.Classes[i] == "other" && c.Oversize {
+			// the commit was refused as a whole for a reason of the storage layer (it exceeds what
+			// the metadata store takes in one transaction): nothing of it may be visible, the
+			// transaction is over
+			m.CommitFailed(o.tx())
+			continue
+		}
 		apply(m, c.Seq.Ops[i])
 	}
 	e0 := expected(m)
@@ -627,7 +641,16 @@ func (propC04) Exec(x any, _ []int32) RunOut {
 		out.Infra = fmt.Sprintf("dry run of the workload failed (exit %d): %s", code, tailFile(logp))
 		return out
 	}
-	_, _, _, dryMuts, done := parseCrashLog(logp)
+	_, dryClasses, _, dryMuts, done := parseCrashLog(logp)
+	if c.Oversize {
+		for i, o := range c.Seq.Ops {
+			if o.K == "commit" && dryClasses[i] == "other" {
+				out.Probes["oversize-commit-refused-as-a-whole"]++
+			} else if o.K == "commit" {
+				out.Probes["oversize-commit-accepted"]++
+			}
+		}
+	}
 	if !done {
 		out.Infra = "dry run did not finish: " + tailFile(logp)
 		return out
@@ -1045,4 +1068,33 @@ func genCrashBigCommit(r *simrt.Rand) CrashCase {
 	}
 	c.Ops = append(c.Ops, Op{K: "set", Tx: 1, Key: "pre", ID: 5, Size: 21}, Op{K: "commit", Tx: 1})
 	return CrashCase{Seq: c, Torn: "none", OnlyLastOp: true, TailPoints: 12}
+}
+
+// genCrashOversizeCommit: one transaction whose version records (they carry the keys) add up to
+// more than Badger accepts in a single transaction (15 % of the memtable: 1.2 MB with the
+// simulator's sizing): the commit either succeeds as a whole or fails as a whole - at every crash
+// point, too. Keys of about 100 KB are legal: the inline client takes any string.
+func genCrashOversizeCommit(r *simrt.Rand) CrashCase {
+	c := SeqCase{Prop: "C04", ReadBack: "none"}
+	c.Sched = SchedSpec{Seed: r.Uint64(), Strategy: "seqbg", MaxSteps: 20_000_000}
+	c.World = defaultWorldSpec()
+	n := 11 + r.Intn(6)
+	klen := 1_400_000/n + r.Intn(20_000)
+	c.Keys = []string{"pre"}
+	c.Ops = append(c.Ops, Op{K: "set", Key: "pre", ID: 1, Size: 20})
+	var fat []string
+	for i := 0; i < n; i++ {
+		fat = append(fat, fmt.Sprintf("fat-%02d-", i)+strings.Repeat(string(rune('a'+i%26)), klen))
+	}
+	c.Keys = append(c.Keys, fat...)
+	// some of the keys exist already (the commit then supersedes committed versions)
+	for i := 0; i < n; i += 3 {
+		c.Ops = append(c.Ops, Op{K: "set", Key: fat[i], ID: uint64(100 + i), Size: 9 + r.Intn(30)})
+	}
+	c.Ops = append(c.Ops, Op{K: "begin", Tx: 1, Level: r.Intn(4)})
+	for i := 0; i < n; i++ {
+		c.Ops = append(c.Ops, Op{K: "set", Tx: 1, Key: fat[i], ID: uint64(200 + i), Size: 9 + r.Intn(30)})
+	}
+	c.Ops = append(c.Ops, Op{K: "set", Tx: 1, Key: "pre", ID: 5, Size: 21}, Op{K: "commit", Tx: 1}, Op{K: "set", Key: "pre", ID: 6, Size: 22})
+	return CrashCase{Seq: c, Torn: "none", OnlyLastOp: true, TailPoints: 90, Oversize: true}
 }
